@@ -10,6 +10,7 @@ pub struct Offsets;
 
 impl Prop for Offsets {
     type Case = Case;
+    crate::prog_shrink!();
     fn name(&self) -> String {
         "C01/offsets".into()
     }
